@@ -79,7 +79,7 @@ static RunResult run_c01(const RunSpec &spec) {
     cover_layout(p.lay, p.knobs);
     std::vector<unsigned char> bytes = p.lay.utf8();
     ev("C01 v%d doc %zu bytes, %d elements, knobs %s", p.cfg.version, bytes.size(), p.n_elems, p.knobs.str().c_str());
-    if (g_log.keep_text) ev("text: %s", snippet(p.lay, 900).c_str());
+    if (g_log.keep_text) g_log.add("text: " + snippet(p.lay, 200000));
     ParseOpts o; Rng orr(hmix(run_seed_of(spec), hstr("opts")));
     o.null_options = false; o.policy = 1; o.target = 1;
     StreamCfg sc; sc.chunk = orr.chance(1, 2) ? (size_t) orr.range(1, 200) : 0;
@@ -292,7 +292,7 @@ static RunResult run_c08(const RunSpec &spec) {
     StreamCfg sc;
     Outcome ref = observe(prop, to_utf8(base), o, sc, Knobs());
     ev("C08 base v%d %zu units: rc %s, %zu errors, dump %016llx", p.cfg.version, base.size(), rc_name(ref.rc), ref.errs.size(), (unsigned long long) hstr(ref.dump.c_str()));
-    if (g_log.keep_text) ev("text: %s", u8(base.substr(0, 900)).c_str());
+    if (g_log.keep_text) g_log.add("text: " + u8(base.substr(0, 200000)));
     if (!ref.dump_ok) DVIOLATE("content", "base_dump", "the baseline parse result cannot be read back: %s", ref.dump_problem.c_str());
     int nt = (int) r.range(3, 6);
     for (int t = 0; t < nt; ++t) {
